@@ -17,7 +17,7 @@ QUICK = {
                                     "noop": 10, "idle": 4, "done": 4, "examine": 3}),
    }
 THOROUGH = {
-    "exhaustive": [("2sess-1mbox-2msgs-flags-depth8", dict(depth=8, maxid=2, acts=["Select", "Noop", "Store", "Fetch", "Append", "Idle"],
+    "exhaustive": [("2sess-1mbox-2msgs-flags-depth7", dict(depth=7, maxid=2, acts=["Select", "Noop", "Store", "Fetch", "Append", "Idle"],
                      flags='{{"Deleted"}, {"Seen"}, {"Flagged", "k1"}, {"Recent"}}', modes=("+", "-", "="),
                      silents="{FALSE, TRUE}")),
                    ("2sess-1mbox-2msgs-search-status-depth7", dict(depth=7, maxid=2,
